@@ -515,3 +515,220 @@ Proof.
 Qed.
 
 End Dests.
+
+(* ====================================================================== statement level (C22) *)
+Definition anyacc : string -> Prop := fun _ => True.
+Lemma anyacc_ok e : forall a : accexpr, anyacc (eval_acc e a).
+Proof. intros; exact I. Qed.
+
+Lemma posts_ok_sum P A ps : posts_ok P A ps -> 0 <= post_sum ps.
+Proof. induction 1 as [|p ps [_ [Hp _]] _ IH]; simpl; lia. Qed.
+
+Lemma eval_vsource_amount e m vs b f b1 : eval_vsource e m vs b = Ok (f, b1) -> exists A x, eval_mon e m = Ok (A, Some x).
+Proof.
+  unfold eval_vsource. destruct vs as [s|l]; intros H.
+  - dobind H fb Es. destruct fb as [f0 b0]. dobind H mm Em. destruct mm as [ma mo].
+    destruct mo as [x|]; [exists ma, x; reflexivity|].
+    unfold take_from_source, take_max_fb in H. destruct (fallback_of s); [discriminate|].
+    destruct (negb _); discriminate.
+  - dobind H mm Em. destruct mm as [ma mo]. dobind H al Ea. destruct mo as [x|]; [exists ma, x; reflexivity|discriminate].
+Qed.
+
+Definition send_post_spec (A : string) (x : Z) (ps : list npost) : Prop :=
+  Forall (fun p => passet p = A /\ 0 <= pamt p) ps /\ 0 <= post_sum ps <= x.
+
+Theorem exec_send_spec te e m vs d b b' ps :
+  exec_send e m vs d b = Ok (b', ps) -> chk_vsource te vs = true ->
+  exists A x, eval_mon e m = Ok (A, Some x) /\ send_post_spec A x ps /\
+              (chk_dest te d = true -> no_kept d = true -> post_sum ps = x).
+Proof.
+  unfold exec_send. intros H Hc. dobind H fb Ev. destruct fb as [f b1].
+  destruct (eval_vsource_amount _ _ _ _ _ _ Ev) as [A [x Hm]]. exists A, x. split; [assumption|].
+  destruct (eval_vsource_ok anyacc e (anyacc_ok e) te _ _ _ _ _ _ _ Ev Hm Hc) as [F1 [F2 F3]].
+  dobind H x1 Ed. destruct x1 as [[lf b2] ps1]. inv H.
+  destruct (proj1 (eval_dest_ok anyacc e (anyacc_ok e)) _ _ _ _ _ _ Ed F1) as [D1 [D2 [D3 D4]]].
+  pose proof (parts_ok_nonneg _ _ D1) as Hl. pose proof (posts_ok_sum _ _ _ D4) as Hs. unfold total in *.
+  split; [split|].
+  - eapply Forall_impl; [|exact D4]. simpl. intros p [Hp1 [Hp2 _]]. split; [congruence|assumption].
+  - lia.
+  - intros Hcd Hnk. pose proof (proj1 (eval_dest_all_sent anyacc e te (anyacc_ok e)) _ _ _ _ _ _ Ed F1 Hcd Hnk) as Hz.
+    unfold total in Hz. lia.
+Qed.
+
+(* sources without an `allowing overdraft up to` clause produce fundings in the asset of the statement *)
+Fixpoint src_plain (s : source) : bool :=
+  match s with
+  | SAccount _ (OdUpTo _) => false
+  | SAccount _ _ => true
+  | SMaxed _ s' => src_plain s'
+  | SInOrder l => srcs_plain l
+  end
+with srcs_plain (l : sources) : bool := match l with SNil => true | SCons s tl => src_plain s && srcs_plain tl end.
+
+Lemma eval_source_asset e A :
+  (forall s b f b1, eval_source e A s b = Ok (f, b1) -> src_plain s = true -> fasset f = A) /\
+  (forall l b fs b1, eval_sources e A l b = Ok (fs, b1) -> srcs_plain l = true -> Forall (fun g => fasset g = A) fs).
+Proof.
+  apply source_mutind.
+  - intros a o b f b1 H Hp. simpl in H. destruct o as [|m|]; [|discriminate|].
+    + destruct (is_world a); [inv H; reflexivity|]. apply (withdraw_all_ok anyacc _ _ _ _ _ _ H I).
+    + inv H. reflexivity.
+  - intros m s IH b f b1 H Hp. simpl in H, Hp. dobind H fb Es. destruct fb as [f0 b0].
+    dobind H mm Em. destruct mm as [ma mo]. specialize (IH _ _ _ Es Hp).
+    pose proof (proj1 (eval_source_ok anyacc e (anyacc_ok e)) _ _ _ _ _ Es) as Hok.
+    assert (fasset f = ma) as Hf by (destruct (fallback_of s); apply (take_max_fb_ok anyacc e (anyacc_ok e) _ _ _ _ _ _ _ H Hok)).
+    unfold take_max_fb in H. destruct mo as [x|]; [|destruct (fallback_of s); discriminate].
+    destruct (fallback_of s); destruct (x <? 0); try discriminate;
+      destruct (negb (String.eqb (fasset f0) ma)) eqn:Ea; try discriminate;
+      apply negb_false_iff, String.eqb_eq in Ea; congruence.
+  - intros l IH b f b1 H Hp. simpl in H, Hp. dobind H fb Es. destruct fb as [fs b0]. dobind H f0 Ea. inv H.
+    specialize (IH _ _ _ Es Hp). destruct (assemble_spec anyacc _ _ Ea) as [_ [A2 _]].
+    destruct fs as [|g gs]; [unfold assemble in Ea; simpl in Ea; discriminate|]. inv A2. inv IH. congruence.
+  - intros b fs b1 H _. simpl in H. inv H. constructor.
+  - intros s IHs l IHl b fs b1 H Hp. simpl in H, Hp. apply andb_prop in Hp. destruct Hp as [Hp1 Hp2].
+    dobind H fb Es. destruct fb as [f0 b0]. dobind H gb El. destruct gb as [gs b2]. inv H.
+    constructor; [apply (IHs _ _ _ Es Hp1)|apply (IHl _ _ _ El Hp2)].
+Qed.
+
+Theorem exec_send_all_spec te e a s d b b' ps :
+  exec_send_all e a s d b = Ok (b', ps) ->
+  exists f b1, eval_source e (eval_asset e a) s b = Ok (f, b1) /\ 0 <= total f /\
+               send_post_spec (fasset f) (total f) ps /\
+               (chk_dest te d = true -> no_kept d = true -> post_sum ps = total f) /\
+               (src_plain s = true -> fasset f = eval_asset e a).
+Proof.
+  unfold exec_send_all. intros H. dobind H fb Es. destruct fb as [f b1]. exists f, b1. split; [reflexivity|].
+  pose proof (proj1 (eval_source_ok anyacc e (anyacc_ok e)) _ _ _ _ _ Es) as F1.
+  dobind H x1 Ed. destruct x1 as [[lf b2] ps1]. inv H.
+  destruct (proj1 (eval_dest_ok anyacc e (anyacc_ok e)) _ _ _ _ _ _ Ed F1) as [D1 [D2 [D3 D4]]].
+  pose proof (parts_ok_nonneg _ _ D1) as Hl. pose proof (parts_ok_nonneg _ _ F1) as Hf.
+  pose proof (posts_ok_sum _ _ _ D4) as Hs. unfold total in *.
+  repeat split; try lia.
+  - eapply Forall_impl; [|exact D4]. simpl. intros p [Hp1 [Hp2 _]]. split; assumption.
+  - intros Hcd Hnk. pose proof (proj1 (eval_dest_all_sent anyacc e te (anyacc_ok e)) _ _ _ _ _ _ Ed F1 Hcd Hnk) as Hz.
+    unfold total in Hz. lia.
+  - intros Hp. apply (proj1 (eval_source_asset e _) _ _ _ _ Es Hp).
+Qed.
+
+(* ---------- program level: the i-th posting list is what the i-th statement produced ---------- *)
+Definition stmt_posts (e : env) (s : stmt) (ps : list npost) : Prop :=
+  match s with
+  | Send m vs d => exists b b', exec_send e m vs d b = Ok (b', ps)
+  | SendAll a src d => exists b b', exec_send_all e a src d b = Ok (b', ps)
+  | _ => ps = []
+  end.
+
+Lemma exec_stmt_posts e s ms ms1 : exec_stmt e s ms = Ok ms1 -> exists ps, mposts ms1 = mposts ms ++ [ps] /\ stmt_posts e s ps.
+Proof.
+  destruct s; simpl; intros H.
+  - dobind H x E. destruct x as [b ps]. inv H. exists ps. split; [reflexivity|]. exists (mbal ms), b. assumption.
+  - dobind H x E. destruct x as [b ps]. inv H. exists ps. split; [reflexivity|]. exists (mbal ms), b. assumption.
+  - dobind H x E. inv H. exists []. split; reflexivity.
+  - dobind H x E. inv H. exists []. split; reflexivity.
+  - destruct (leaf_value e m). inv H. exists []. split; reflexivity.
+  - inv H. exists []. split; reflexivity.
+  - discriminate.
+Qed.
+
+Lemma exec_stmts_posts e l : forall ms ms1, exec_stmts e l ms = Ok ms1 ->
+  exists L, mposts ms1 = mposts ms ++ L /\ Forall2 (stmt_posts e) l L.
+Proof.
+  induction l as [|s tl IH]; intros ms ms1 H; simpl in H.
+  - inv H. exists []. split; [rewrite app_nil_r; reflexivity|constructor].
+  - dobind H ms0 E. destruct (exec_stmt_posts _ _ _ _ E) as [ps [H1 H2]].
+    destruct (IH _ _ H) as [L [H3 H4]]. exists (ps :: L). split; [|constructor; assumption].
+    rewrite H3, H1, <- app_assoc. reflexivity.
+Qed.
+
+(* the environment a successful run executes its statements in *)
+Lemma run_posts p given s r : run p given s = Ok r ->
+  check p = true /\ exists e, Forall2 (stmt_posts e) (pstmts p) (rposts r).
+Proof.
+  unfold run. destruct (check p) eqn:Ec; [|discriminate]. simpl.
+  destruct (negb _); [discriminate|]. intros H.
+  dobind H x0 E0. destruct x0 as [e0 bv]. dobind H x1 E1. destruct x1 as [e b0]. dobind H ms E2. inv H. simpl.
+  split; [reflexivity|]. exists e. destruct (exec_stmts_posts _ _ _ _ E2) as [L [H1 H2]]. simpl in H1. subst. assumption.
+Qed.
+
+Lemma Forall2_strengthen {A B} (R S : A -> B -> Prop) (Q : A -> Prop) l L :
+  Forall2 R l L -> Forall Q l -> (forall a b, Q a -> R a b -> S a b) -> Forall2 S l L.
+Proof. induction 1; intros HQ HS; [constructor|]. inv HQ. constructor; auto. Qed.
+
+Lemma check_stmts p : check p = true -> exists te, Forall (fun s => chk_stmt te s = true) (pstmts p).
+Proof.
+  unfold check. destruct (pstmts p) as [|s0 l0] eqn:E; [discriminate|].
+  destruct (chk_vars [] (pvars p)) as [te|]; [|discriminate]. intros H. exists te. apply Forall_forall.
+  rewrite forallb_forall in H. assumption.
+Qed.
+
+Lemma eval_mon_asset e m : forall A o, eval_mon e m = Ok (A, o) -> A = mon_asset e m.
+Proof.
+  unfold mon_asset, leaf_value. induction m as [a n|x|l IHl r IHr|l IHl r IHr]; intros A o H; simpl in H |- *.
+  - inv H. reflexivity.
+  - destruct (lookup e x) as [[]|]; inv H; reflexivity.
+  - dobind H x1 E1. destruct x1 as [la lo]. dobind H x2 E2. destruct x2 as [ra ro].
+    destruct (String.eqb la ra); [|discriminate]. inv H. apply (IHl _ _ eq_refl).
+  - dobind H x1 E1. destruct x1 as [la lo]. dobind H x2 E2. destruct x2 as [ra ro].
+    destruct (String.eqb la ra); [|discriminate]. inv H. apply (IHl _ _ eq_refl).
+Qed.
+
+(* what a successful run guarantees for its i-th statement and the i-th posting list *)
+Definition stmt_guarantee (e : env) (s : stmt) (ps : list npost) : Prop :=
+  match s with
+  | Send m vs d =>
+      exists A x, eval_mon e m = Ok (A, Some x) /\ A = mon_asset e m /\ send_post_spec A x ps /\
+                  (no_kept d = true -> post_sum ps = x)
+  | SendAll a src d =>
+      exists f b b1, eval_source e (eval_asset e a) src b = Ok (f, b1) /\ 0 <= total f /\
+                     send_post_spec (fasset f) (total f) ps /\
+                     (no_kept d = true -> post_sum ps = total f) /\
+                     (src_plain src = true -> fasset f = eval_asset e a)
+  | _ => ps = []
+  end.
+
+Theorem run_guarantee p given s r : run p given s = Ok r ->
+  exists e, Forall2 (stmt_guarantee e) (pstmts p) (rposts r).
+Proof.
+  intros H. destruct (run_posts _ _ _ _ H) as [Hc [e HF]]. exists e.
+  destruct (check_stmts _ Hc) as [te Hte].
+  eapply Forall2_strengthen; [exact HF|exact Hte|]. clear. intros st ps Hchk Hp.
+  destruct st; simpl in *; try assumption.
+  - destruct Hp as [b [b' Hx]]. apply andb_prop in Hchk. destruct Hchk as [Hchk Hd]. apply andb_prop in Hchk. destruct Hchk as [_ Hv].
+    destruct (exec_send_spec te _ _ _ _ _ _ _ Hx Hv) as [A [x [H1 [H2 H3]]]].
+    exists A, x. repeat split; try assumption; try apply H2. apply (eval_mon_asset _ _ _ _ H1). intros Hk. apply H3; assumption.
+  - destruct Hp as [b [b' Hx]]. apply andb_prop in Hchk. destruct Hchk as [_ Hd].
+    destruct (exec_send_all_spec te _ _ _ _ _ _ _ Hx) as [f [b1 [H1 [H2 [H3 [H4 H5]]]]]].
+    exists f, b, b1. repeat split; try assumption; try apply H3. intros Hk. apply H4; assumption.
+Qed.
+
+(* C26: dropping zero-amount postings (the documented difference of the interpreter) changes no sum and no balance *)
+Definition nonzero_posts (ps : list npost) : list npost := filter (fun p => negb (pamt p =? 0)) ps.
+Definition effect (acc asset : string) (ps : list npost) : Z :=
+  fold_right (fun p s =>
+    (if String.eqb (passet p) asset then
+       (if String.eqb (pdst p) acc then pamt p else 0) - (if String.eqb (psrc p) acc then pamt p else 0)
+     else 0) + s) 0 ps.
+
+Lemma nonzero_posts_sum ps : post_sum (nonzero_posts ps) = post_sum ps.
+Proof. induction ps as [|p ps IH]; simpl; [reflexivity|]. destruct (pamt p =? 0) eqn:E; simpl; [apply Z.eqb_eq in E|]; lia. Qed.
+
+Lemma nonzero_posts_effect acc asset ps : effect acc asset (nonzero_posts ps) = effect acc asset ps.
+Proof.
+  induction ps as [|p ps IH]; simpl; [reflexivity|]. destruct (pamt p =? 0) eqn:E; simpl; rewrite IH; [|reflexivity].
+  apply Z.eqb_eq in E. rewrite E. destruct (String.eqb (passet p) asset), (String.eqb (pdst p) acc), (String.eqb (psrc p) acc); lia.
+Qed.
+
+(* C28 helpers *)
+Lemma literal_statement_asset e m s n : leftmost m = MonLit (AssetLit s) n -> mon_asset e m = s.
+Proof. unfold mon_asset, leaf_value. intros ->. reflexivity. Qed.
+
+Lemma set_vars_valid decls given : set_vars decls given = true ->
+  forall d, In d decls -> vorigin d = ONone ->
+  exists v, lookup given (vname d) = Some v /\ ty_of v = ty_of v /\ validate_value v = true.
+Proof.
+  induction decls as [|d0 tl IH]; intros H d Hin Ho; [inv Hin|]. simpl in H. destruct Hin as [->|Hin].
+  - rewrite Ho in H. destruct (lookup given (vname d)) as [v|]; [|discriminate].
+    apply andb_prop in H. destruct H as [H _]. apply andb_prop in H. destruct H as [_ Hv]. exists v. auto.
+  - destruct (vorigin d0); [destruct (lookup given (vname d0)); [|discriminate]; apply andb_prop in H; destruct H as [_ H]| |];
+      apply (IH H _ Hin Ho).
+Qed.
